@@ -28,6 +28,7 @@ from .specs.type import (
     Type,
     ArrayType,
     StructType,
+    EnumType,
     DynamicArrayType,
     OptionalType,
     StringType,
@@ -109,6 +110,11 @@ def _encode_builtin_double(buffer: _Buffer, type: DoubleType, data: Any) -> None
     buffer.push_bytes(list(v))
 
 
+def _encode_enum(buffer: _Buffer, fcp: FcpV2, type: EnumType, data: Any) -> None:
+    enum = fcp.get_enum(type.name).unwrap()
+    buffer.push_word(data, enum.get_packed_size())
+
+
 def _encode_str(buffer: _Buffer, fcp: FcpV2, type: StringType, data: Any) -> None:
     _encode_builtin_unsigned(buffer, UnsignedType("u32"), len(data))
     for x in data:
@@ -164,6 +170,8 @@ def _encode(
         _encode_str(buffer, fcp, type, data)
     elif isinstance(type, StructType):
         _encode_struct(buffer, fcp, type.name, data)
+    elif isinstance(type, EnumType):
+        _encode_enum(buffer, fcp, type, data)
     elif isinstance(type, ArrayType):
         _encode_array(buffer, fcp, type, data)
     elif isinstance(type, DynamicArrayType):
@@ -203,6 +211,11 @@ def _decode_builtin_float(buffer: _Buffer, type: FloatType) -> float:
 
 def _decode_builtin_double(buffer: _Buffer, type: DoubleType) -> float:
     return float(struct.unpack("d", bytearray(buffer.read_bytes(8)))[0])
+
+
+def _decode_enum(buffer: _Buffer, fcp: FcpV2, type: EnumType) -> int:
+    enum = fcp.get_enum(type.name).unwrap()
+    return buffer.read_word(enum.get_packed_size())
 
 
 def _decode_str(buffer: _Buffer, type: StringType) -> str:
@@ -260,6 +273,8 @@ def _decode(buffer: _Buffer, fcp: FcpV2, type: Type) -> Dict[str, Any]:
         return _decode_str(buffer, type)
     elif isinstance(type, StructType):
         return _decode_struct(buffer, fcp, type.name)
+    elif isinstance(type, EnumType):
+        return _decode_enum(buffer, fcp, type)
     elif isinstance(type, ArrayType):
         return _decode_array(buffer, fcp, type)
     elif isinstance(type, DynamicArrayType):
